@@ -19,7 +19,7 @@ TIERS = {
     },
     "C09": {
         "quick": {"cases": 9000, "m_seeded": 3, "flip_n": 16, "wall": 600, "echo": 96, "max_budget": 1024},
-        "thorough": {"cases": 250000, "m_seeded": 12, "flip_n": 32, "wall": 7200, "echo": 256},
+        "thorough": {"cases": 200000, "m_seeded": 8, "flip_n": 24, "wall": 7200, "echo": 256, "max_budget": 1024},
     },
 }
 
